@@ -10,6 +10,7 @@ CONSTANTS
   Buf = 1
   Fixes = {"D14", "D2", "D18", "D19", "D20", "D21", "D23"}
   ColorOnly = FALSE
+  Modes = {}
   ReplayLen = 0
 INVARIANTS RowsOnceInOrder Lag PrefixStable Boundary Replay
 PROPERTY NeverRevised
